@@ -278,9 +278,12 @@ Rec(h, n, T, fuel) ==
          ELSE RR({}, h, "", {n}, NoK))
     ELSE IF T[1] = "union" THEN RecUnion(h, n, T[2], 1, {}, {}, NoK, fuel)
     ELSE IF T[1] = "list" THEN
-        (IF h[n].k # "q" THEN RR({}, h, "", {n}, NoK) ELSE RecList(h, n, T, 1, 0, fuel))
+        \* an explicit tag on a collection says that it is something else
+        (IF h[n].k # "q" \/ h[n].t # "seq" THEN RR({}, h, "", {n}, NoK)
+         ELSE RecList(h, n, T, 1, 0, fuel))
     ELSE IF T[1] = "dict" THEN
-        (IF h[n].k # "m" THEN RR({}, h, "", {n}, NoK) ELSE RecDict(h, n, T, 1, 0, fuel))
+        (IF h[n].k # "m" \/ h[n].t # "map" THEN RR({}, h, "", {n}, NoK)
+         ELSE RecDict(h, n, T, 1, 0, fuel))
     ELSE IF T[1] = "class" /\ T[2] \in ClassNames /\ IsReg(T[2]) THEN
         RecClasses(h, n, T[2], TRUE, fuel)
     ELSE IF T[1] = "any" THEN RR({T}, h, "", {}, NoK)
